@@ -830,6 +830,14 @@ def main():
 
     # ------------------------------------------------ evidence
     level = "proof" if n_obl_p > 0 else "model_checking"
+    # never above what MANIFEST.json claims: a property decided mostly by bounded stand-ins stays model_checking even when
+    # a few complete (P) obligations belong to it
+    try:
+        claimed = {c["id"]: c.get("category") for c in json.load(open(os.path.join(VERIF, "lib", "manifest_src.json")))["claimed"]}
+        if claimed.get(pid) == "model_checking":
+            level = "model_checking"
+    except Exception:
+        pass
     ncan = sum(len(r["canaries"]) for r in results)
     cov = {
         "obligations": n_obl_p, "discharged": n_dis_p,
